@@ -193,10 +193,13 @@ def judge(family, case, rec):
         subsets = [set(int(v) for v in np.where(rng.random(p) < rng.uniform(0.1, 0.9))[0]) for _ in range(4)] + [set(), set(range(p))]
     for k, S in enumerate(subsets):
         S0 = set(S)
-        Sarg = S if k % 2 == 0 else sorted(S)
+        form = (k + p) % 8       # the documented form is a set; any iterable of node indices works on the unchanged tree
+        Sarg = (S, sorted(S), sorted(S, reverse=True), tuple(sorted(S, reverse=True)), frozenset(S),
+                np.array(sorted(S, reverse=True), dtype=int), set(np.int64(v) for v in S), S)[form]
+        rec.count("node-set-form:%d" % form)
         _call(rec, family, case, "induced_subgraph", U.induced_subgraph, Sarg, A)
         _call(rec, family, case, "is_clique", U.is_clique, Sarg, A)
-        if set(Sarg) != S0:
+        if set(int(v) for v in Sarg) != S0:
             rec.violation("C16:set-argument-mutated", family, case, "the node set argument was modified")
     if not (A == before).all():
         rec.violation("C16:input-mutated", family, case, "a decomposition function modified the matrix", matrix=before)
